@@ -351,38 +351,42 @@ def cpu_freq_sysfs(ctx, ncpu, layout):
     mn = [ctx.int(f"min{i}", 0, 10**8) for i in range(ncpu)]
     mx = [ctx.int(f"max{i}", 0, 10**8) for i in range(ncpu)]
     src = ctx.choice("current_from", ["scaling_cur_freq", "cpuinfo_cur_freq", "proc_cpuinfo"])
-    offline = ctx.flag("cpu0_offline") if src != "proc_cpuinfo" else False
+    # per entry: "online"; "offline" (online file says 0 and the current-frequency file cannot be read); "flagged" = the i-th CPU's
+    # online file says 0 but the i-th frequency entry is readable all the same -- entries are not indexed by CPU number once a CPU
+    # in the middle is unplugged (cpu0, cpu2 left) or policies are shared (policy0, policy4): a readable entry is reported as read
+    st = [ctx.choice(f"entry{i}", ["online", "offline", "flagged"]) if src != "proc_cpuinfo" else "online" for i in range(ncpu)]
+    noff = sum(1 for x in st if x == "offline")
     # directories are listed in a non-numeric order on purpose (policy10 < policy2 lexicographically does not arise for ncpu <= 4)
     for i in range(ncpu):
         d = f"{base}/cpufreq/policy{i}" if layout == "policy" else f"{base}/cpu{i}/cpufreq"
         k.files[f"{d}/scaling_min_freq"] = k.num(mn[i]) + b"\n"
         k.files[f"{d}/scaling_max_freq"] = k.num(mx[i]) + b"\n"
-        if src in ("scaling_cur_freq", "cpuinfo_cur_freq") and not (offline and i == 0):
+        if src in ("scaling_cur_freq", "cpuinfo_cur_freq") and st[i] != "offline":
             k.files[f"{d}/{src}"] = k.num(cur[i]) + b"\n"
-        k.files[f"{base}/cpu{i}/online"] = "0\n" if (offline and i == 0) else "1\n"
+        k.files[f"{base}/cpu{i}/online"] = "1\n" if st[i] == "online" else "0\n"
     nrec = ncpu
     if src == "proc_cpuinfo":
         k.files["/proc/cpuinfo"] = "".join(f"processor\t: {i}\ncpu MHz\t\t: {k.num(cur[i], True, suffix='.000')}\n\n" for i in range(ncpu))
     else:
         # /proc/cpuinfo may carry "cpu MHz" records for fewer CPUs than there are frequency policies (an offline CPU has no record; a
         # policy may be shared): they are a substitute for the sysfs readings only when there is exactly one per policy
-        nrec = ctx.choice("cpuinfo_mhz_records", list(range(0, ncpu + (0 if offline else 1))))
+        nrec = ctx.choice("cpuinfo_mhz_records", list(range(0, ncpu + 1 - noff)))
         cm = [ctx.int(f"cpuinfo_mhz{i}", 0, 10**5) for i in range(nrec)]
-        k.files["/proc/cpuinfo"] = "".join(f"processor\t: {i + (1 if offline else 0)}\ncpu MHz\t\t: {k.num(cm[i], True, suffix='.000')}\n\n" for i in range(nrec)) or "processor\t: 0\nmodel name\t: x\n\n"
+        k.files["/proc/cpuinfo"] = "".join(f"processor\t: {i + noff}\ncpu MHz\t\t: {k.num(cm[i], True, suffix='.000')}\n\n" for i in range(nrec)) or "processor\t: 0\nmodel name\t: x\n\n"
     with k.installed(pkg=pkg):
         per = ctx.guard("cpu_freq-sysfs", pkg.cpu_freq, percpu=True)
         avg = ctx.guard("cpu_freq-sysfs", pkg.cpu_freq)
     ctx.observe("freq", ([tuple(x) for x in per], tuple(avg) if avg else None))
     want = []
     for i in range(ncpu):
-        if offline and i == 0:
+        if st[i] == "offline":
             want.append((0, 0, 0))
         else:
             # /proc/cpuinfo is already in MHz
             c = cur[i] if src == "proc_cpuinfo" else cm[i] if nrec == ncpu else ctx.div(cur[i], 1000)
             want.append((c, ctx.div(mn[i], 1000), ctx.div(mx[i], 1000)))
     ok = [len(per) == ncpu] + [ctx.all([ctx.eq(g.current, w[0]), ctx.eq(g.min, w[1]), ctx.eq(g.max, w[2])]) for g, w in zip(per, want)]
-    ctx.prove(ctx.all(ok), "cpu_freq-sysfs", detail=f"layout={layout} current from {src} offline0={offline}")
+    ctx.prove(ctx.all(ok), "cpu_freq-sysfs", detail=f"layout={layout} current from {src} entries={st}")
     if len(per) == ncpu:
         ctx.prove(avg is not None and ctx.all([ctx.eq(avg.current, ctx.div(ctx.sum([w[0] for w in want]), ncpu)), ctx.eq(avg.min, ctx.div(ctx.sum([w[1] for w in want]), ncpu)),
                                                ctx.eq(avg.max, ctx.div(ctx.sum([w[2] for w in want]), ncpu))]), "cpu_freq-sysfs-mean")
